@@ -65,3 +65,192 @@ Proof.
   split; [reflexivity|]. split; [|reflexivity].
   intros c. unfold check_trace_id. rewrite Z.eqb_refl. apply Bool.orb_true_r.
 Qed.
+
+(* ====================================================================================================
+   WHOLE RUNS: non-interference (Proofs/NonInterference.v, Proofs/PrevRound.v).
+   [pick c s rc]: the ground-truth test of C01 (ghost_pick) on a delivery: Some (p, sr) iff rc is a response
+   that is genuine in state s (validated, own or wildcard trace id, names a sequence issued in the round in
+   progress, that probe still Awaited).  [quiet c s rc]: rc is a timeout or a response that is not genuine.
+   ==================================================================================================== *)
+From TV Require Import Proofs.RoundHistory Proofs.RunLog Proofs.RunLogProps Proofs.NonInterference Proofs.PrevRound.
+
+(* the responses the tracer must ignore fall into exactly four classes: rejected by validate (other target, other
+   ports, missing Dublin/IPv6 marker); foreign trace identifier; sequence outside [round_sequence, sequence) -
+   previous round, never sent; the addressed slot is not Awaited - duplicate, failed or abandoned probe *)
+Theorem c03_nongenuine_classes : forall c s r,
+  pick c s (Resp r) = None <->
+  validate c (resp_data_of r) = false \/
+  exists sr, strategy_resp c r = Ok sr /\
+    (check_trace_id c (sr_trace_id sr) = false \/
+     ~ (round_sequence s <= sr_sequence sr < sequence s) \/
+     not_awaiting s (sr_sequence sr)).
+Proof. exact pick_none_classes. Qed.
+
+(* Strategy::recv_response on a delivery of these classes returns the ENTIRE TracerState unchanged and no error:
+   it is literally the result of "nothing received" - no field (not even received_time) may differ *)
+Theorem c03_quiet_delivery_is_timeout : forall c s i, Accept c -> Inv c s -> quiet c s (i_recv i) ->
+  recv_response c s i = Ok (s, None) /\ recv_response c s i = recv_response c s (set_recv i Timeout).
+Proof. exact quiet_delivery_is_timeout. Qed.
+
+(* ... and only these: a genuine response always changes the state *)
+Theorem c03_genuine_delivery_changes : forall c s i r p sr s' e, Inv c s -> i_recv i = Resp r ->
+  pick c s (Resp r) = Some (p, sr) -> recv_response c s i = Ok (s', e) -> s' <> s.
+Proof. exact genuine_recv_changes. Qed.
+
+(* one iteration of the run loop: replacing a quiet delivery by any other quiet delivery (in particular by a
+   timeout) gives the same iteration - same probes sent, same round published, same next state *)
+Theorem c03_step_noninterference : forall c s i i', Accept c -> Inv c s -> recv_sim c s i i' -> step c s i' = step c s i.
+Proof. exact step_sim. Qed.
+
+(* NON-INTERFERENCE over whole runs: two input histories of any length that differ only in quiet deliveries
+   (judged in the state of the moment) are the same run: same events (every send with its outcome, every published
+   round), same outcome, same final TracerState *)
+Theorem c03_run_noninterference : forall c is is' s, Accept c -> Inv c s -> run_sim c s is is' ->
+  run_from c s is' = run_from c s is.
+Proof. intros c is is' s HA HI H. exact (run_noninterference c HA is is' s HI H). Qed.
+
+Theorem c03_same_published_rounds : forall c t0 is is', Accept c -> run_sim c (ts_new c t0) is is' ->
+  pubs (fst (fst (run c t0 is'))) = pubs (fst (fst (run c t0 is))) /\
+  sends_of (fst (fst (run c t0 is'))) = sends_of (fst (fst (run c t0 is))) /\
+  snd (run c t0 is') = snd (run c t0 is).
+Proof. exact run_sim_same_rounds. Qed.
+
+(* the harness oracle "with vs. without the injected responses": [scrub] turns EVERY response that is not genuine
+   into "nothing received"; the scrubbed history is the same run ... *)
+Theorem c03_scrub_same_run : forall c t0 is, Accept c -> run c t0 (scrub c (ts_new c t0) is) = run c t0 is.
+Proof. exact scrub_run. Qed.
+
+(* ... every response left in it is genuine when it is delivered, and nothing else of the history was touched *)
+Theorem c03_scrub_leaves_only_genuine : forall c t0 is, Accept c ->
+  all_genuine c (ts_new c t0) (scrub c (ts_new c t0) is) /\
+  Forall2 (fun i i' => i' = i \/ (exists r, i_recv i = Resp r) /\ i' = set_recv i Timeout) is (scrub c (ts_new c t0) is).
+Proof. exact scrub_run_only_genuine. Qed.
+
+(* the same without looking at the tracer state: genuineness decided on the observation log alone ([genuine]
+   of C06/C08 against the ghost of the log before the delivery).  The log of the scrubbed run is the log of the
+   original run with the deliveries that are not genuine deleted, and deleting them does not change the ghost *)
+Theorem c03_scrub_log : forall c t0 is, Accept c ->
+  run_log c t0 (scrub c (ts_new c t0) is) = drop_nongenuine c (g_init t0) (run_log c t0 is).
+Proof. exact scrub_run_log. Qed.
+
+Theorem c03_dropped_deliveries_keep_ghost : forall c l g,
+  fold_left (gstep c) (drop_nongenuine c g l) g = fold_left (gstep c) l g.
+Proof. exact drop_ghost. Qed.
+
+(* filters that do not look at the state: a class of responses that is never genuine can be deleted from any
+   history without changing the run *)
+Theorem c03_drop_never_genuine : forall c f t0 is, Accept c -> never_genuine c f -> run c t0 (drop_if f is) = run c t0 is.
+Proof. exact drop_never_genuine_run. Qed.
+
+(* ... responses for another target or other ports (rejected by validate) *)
+Theorem c03_invalid_responses_run : forall c t0 is, Accept c -> run c t0 (drop_if (invalid c) is) = run c t0 is.
+Proof. exact invalid_responses_run. Qed.
+
+(* ... responses carrying a trace identifier that is neither this tracer's nor 0 *)
+Theorem c03_foreign_id_responses_run : forall c t0 is, Accept c -> run c t0 (drop_if (foreign_id c) is) = run c t0 is.
+Proof. exact foreign_id_responses_run. Qed.
+
+(* the identifier the strategy derives from a response is the ICMP identifier field; UDP and TCP responses carry
+   none (0, accepted by every tracer): for those, isolation rests on validate (target address and ports) *)
+Theorem c03_trace_id_of_response : forall c r sr, strategy_resp c r = Ok sr ->
+  sr_trace_id sr = match r_proto (resp_data_of r) with PIcmp id _ _ => id | _ => 0 end.
+Proof. exact strategy_resp_trace_id. Qed.
+
+(* several tracers of one process on one network (identifiers of app.rs, c03_trace_identifiers above): the run of
+   tracer i with the responses that belong to the other tracers is the run it has alone *)
+Theorem c03_tracers_isolated_run : forall c pid i f t0 is, Accept c ->
+  trace_identifier c = trace_identifier_for pid i -> 0 <= i < 65535 ->
+  (forall r, f r = true -> from_other_tracer c pid i r) ->
+  run c t0 (drop_if f is) = run c t0 is.
+Proof. exact tracers_isolated_run. Qed.
+
+Theorem c03_two_tracers_alone : forall ca cb pid i j fa fb ta tb isa isb, Accept ca -> Accept cb ->
+  trace_identifier ca = trace_identifier_for pid i -> trace_identifier cb = trace_identifier_for pid j ->
+  0 <= i < 65535 -> 0 <= j < 65535 -> i <> j ->
+  (forall r, fa r = true -> exists sr, strategy_resp ca r = Ok sr /\ sr_trace_id sr = trace_identifier cb) ->
+  (forall r, fb r = true -> exists sr, strategy_resp cb r = Ok sr /\ sr_trace_id sr = trace_identifier ca) ->
+  run ca ta (drop_if fa isa) = run ca ta isa /\ run cb tb (drop_if fb isb) = run cb tb isb.
+Proof. exact two_tracers_alone. Qed.
+
+(* late responses over whole runs (ICMP, UDP): at every position of every run, a response naming the sequence of a
+   probe of the round published last ([prev_after]: its send log, read off the observation log) is not genuine -
+   hence deleted by [scrub] / [drop_nongenuine] and without any effect on the run *)
+Theorem c03_late_response_not_genuine : forall c t0 is l1 r l2 sr p x, Accept c -> proto c <> Tcp ->
+  run_log c t0 is = l1 ++ ORecv r :: l2 -> strategy_resp c r = Ok sr ->
+  In (p, x) (prev_after c t0 l1) -> p_sequence p = sr_sequence sr ->
+  genuine c (g_S (ghost_after c t0 l1)) (g_A (ghost_after c t0 l1)) r = None.
+Proof. exact late_response_not_genuine. Qed.
+
+(* [prev_after] is the send log RoundHistory / RunLog attach to the last round published in that prefix of the log *)
+Theorem c03_prev_after_is_last_published : forall c t0 l,
+  prev_after c t0 l = match rev (publishes c (g_init t0) l) with x :: _ => snd (fst x) | [] => [] end.
+Proof. intros c t0 l. exact (prev_after_publishes c l (g_init t0) []). Qed.
+
+(* ---- examples: the hypotheses are met by concrete runs (example run of Proofs/RunLogProps.v) ---- *)
+(* the run of rl_ex_ins receives a duplicate of the target's answer (6th iteration): scrubbing replaces exactly that
+   delivery, and the two histories are related by run_sim *)
+Example c03_ex_scrub :
+  map (fun i => match i_recv i with Timeout => 0 | Resp _ => 1 | FatalR _ => 2 end) rl_ex_ins = [0;1;1;1;0;1;0;0;0;0;0;0] /\
+  map (fun i => match i_recv i with Timeout => 0 | Resp _ => 1 | FatalR _ => 2 end) (scrub rl_ex_cfg (ts_new rl_ex_cfg 0) rl_ex_ins)
+    = [0;1;1;1;0;0;0;0;0;0;0;0] /\
+  run rl_ex_cfg 0 (scrub rl_ex_cfg (ts_new rl_ex_cfg 0) rl_ex_ins) = run rl_ex_cfg 0 rl_ex_ins.
+Proof. vm_compute. repeat split. Qed.
+
+(* TCP: the reply naming the abandoned sequence 100 (slot Skipped) is scrubbed, the one naming 102 is kept *)
+Example c03_ex_scrub_tcp :
+  map (fun i => match i_recv i with Timeout => 0 | Resp _ => 1 | FatalR _ => 2 end) (scrub rl_ex_tcp_cfg (ts_new rl_ex_tcp_cfg 0) rl_ex_tcp_ins)
+    = [0;0;1;0;0].
+Proof. vm_compute. reflexivity. Qed.
+
+(* tracer 1 of process 6 has identifier 7 (= rl_ex_cfg), tracer 2 has 8; a Time Exceeded quoting tracer 2's probe
+   with the in-window sequence 100 is delivered to tracer 1 in the first iteration: it belongs to another tracer,
+   deleting it gives rl_ex_ins, and the run is the same *)
+Definition c03_ex_foreign : response :=
+  RTimeExceeded {| r_recv := 1; r_addr := [9;9;9;1]; r_proto := PIcmp 8 100 None |} 0 None.
+Definition c03_ex_shared_ins : list iter_in := rl_ex_it (Resp c03_ex_foreign) 1 :: tl rl_ex_ins.
+
+Example c03_ex_two_tracers :
+  trace_identifier rl_ex_cfg = trace_identifier_for 6 1 /\
+  from_other_tracer rl_ex_cfg 6 1 c03_ex_foreign /\
+  foreign_id rl_ex_cfg c03_ex_foreign = true /\
+  drop_if (foreign_id rl_ex_cfg) c03_ex_shared_ins = rl_ex_ins /\
+  run rl_ex_cfg 0 c03_ex_shared_ins = run rl_ex_cfg 0 rl_ex_ins.
+Proof.
+  split; [reflexivity|]. split.
+  - exists 2. eexists. split; [lia|]. split; [lia|]. split; reflexivity.
+  - split; [reflexivity|]. split; vm_compute; reflexivity.
+Qed.
+
+(* a late response: the Time Exceeded for sequence 101 (round 0) arrives in round 1 (7th iteration) *)
+Definition c03_ex_late : response := rl_ex_te 16 101 [9;9;9;2].
+Definition c03_ex_late_ins : list iter_in := firstn 6 rl_ex_ins ++ rl_ex_it (Resp c03_ex_late) 16 :: skipn 7 rl_ex_ins.
+
+Example c03_ex_late_instance :
+  let L := run_log rl_ex_cfg 0 c03_ex_late_ins in
+  L = firstn 15 L ++ ORecv c03_ex_late :: skipn 16 L /\
+  map (fun po => p_sequence (fst po)) (prev_after rl_ex_cfg 0 (firstn 15 L)) = [100; 101; 102; 103] /\
+  (exists sr, strategy_resp rl_ex_cfg c03_ex_late = Ok sr /\ sr_sequence sr = 101) /\
+  run rl_ex_cfg 0 c03_ex_late_ins = run rl_ex_cfg 0 rl_ex_ins.
+Proof.
+  intros L. split; [vm_compute; reflexivity|]. split; [vm_compute; reflexivity|].
+  split; [eexists; split; reflexivity|]. vm_compute. reflexivity.
+Qed.
+
+(* "each one's results": histories that differ only in quiet deliveries give the same State, hence the same
+   snapshots (State::update_from_round over the published rounds, C01) *)
+From TV Require Import Core.State Proofs.FlowAttr.
+Theorem c03_same_snapshot : forall c t0 is is' ms mf, Accept c -> run_sim c (ts_new c t0) is is' ->
+  st_run (state_new ms mf) (pubs (fst (fst (run c t0 is')))) = st_run (state_new ms mf) (pubs (fst (fst (run c t0 is)))).
+Proof. exact same_snapshot. Qed.
+
+(* why the property says "different NON-ZERO trace identifier": identifier 0 is accepted by check_trace_id whatever
+   the protocol.  An ICMP tracer (identifier 7) that receives a Time Exceeded quoting an echo request with
+   identifier 0 and the in-window sequence 100 from host 6.6.6.6 completes its ttl 1 probe with that host: the
+   published rounds differ from the run in which that delivery is a timeout.  The stronger claim "a response
+   carrying ANY other identifier changes nothing" is false of the model and of the code (strategy.rs
+   check_trace_id: `|| trace_id == TraceId(0)` is not restricted to UDP / TCP) *)
+Theorem c03_any_other_identifier_refuted : exists c t0 i rest r,
+  Accept c /\ proto c = Icmp /\ i_recv i = Resp r /\
+  (exists sr, strategy_resp c r = Ok sr /\ sr_trace_id sr <> trace_identifier c) /\
+  pubs (fst (fst (run c t0 (i :: rest)))) <> pubs (fst (fst (run c t0 (set_recv i Timeout :: rest)))).
+Proof. exact any_other_identifier_refuted. Qed.
